@@ -294,7 +294,18 @@ func GenTrip(rng *rand.Rand, thorough bool, emit func(*Sx)) {
 					ro.RequireRecipientValidSince = time.Date(2014+si, time.April, 3, 23, 1, si, 0, time.FixedZone("", (si%5-2)*3600)).Truncate(time.Second)
 				}
 				calls := []TripCall{{Kind: "mail", Arg: "sender@example.org", MO: mo}, {Kind: "rcpt", Arg: "rcpt@example.net", RO: ro}, {Kind: "quit"}}
-				emit(RunTrip(TripCase{Cfg: cfg, Calls: calls, Extra: []*Sx{L(A("focus"), A("C14"))}}))
+				reps := 1
+				if variant <= 1 {
+					// the server visits MAIL parameters in Go map order: repeat, and add further parameters
+					reps = 4
+				}
+				for r := 0; r < reps; r++ {
+					if r >= 2 {
+						mo.Size = int64(100 + r)
+						mo.Return = smtp.DSNReturnHeaders
+					}
+					emit(RunTrip(TripCase{Cfg: cfg, Calls: calls, Extra: []*Sx{L(A("focus"), A("C14"))}}))
+				}
 			}
 		}
 	}
